@@ -39,7 +39,18 @@ func seed() int64 {
 
 var fragments = []string{"plain", "$X", "${X}", "$$X", `\$X`, "pre-$Y-post", "${Z:-dflt}", "$$$$X", "a $$X b $X", "${X}$$Y"}
 
-func frag(r *rand.Rand) string { return fragments[r.Intn(len(fragments))] }
+// fragCalls counts the string positions a generated pipeline has; when failAt is
+// that ordinal the fragment is an expansion that fails (a required variable that is unset).
+var fragCalls, failAt = 0, -1
+
+func frag(r *rand.Rand) string {
+	f := fragments[r.Intn(len(fragments))]
+	fragCalls++
+	if fragCalls-1 == failAt {
+		return "pre ${REQUIRED_BUT_UNSET?boom} post"
+	}
+	return f
+}
 
 // yamlStr quotes a string for YAML.
 func yamlStr(s string) string { b, _ := json.Marshal(s); return string(b) }
@@ -213,7 +224,37 @@ func TestC04(t *testing.T) {
 			}
 		}
 	}
-	// an expansion failure is reported
+	// an expansion failure at any string position (keys, values, every step kind, unknown fields) is reported
+	positions := 120
+	if os.Getenv("VERIF_TIER") == "thorough" {
+		positions = 1000
+	}
+	for _, size := range []int{1, 9} {
+		sd := r.Int63()
+		fragCalls, failAt = 0, -1
+		genPipeline(rand.New(rand.NewSource(sd)), size)
+		total := fragCalls
+		for _, k := range r.Perm(total) {
+			if positions--; positions < 0 {
+				break
+			}
+			fragCalls, failAt = 0, k
+			doc := genPipeline(rand.New(rand.NewSource(sd)), size)
+			failAt = -1
+			p, _ := pipeline.Parse(strings.NewReader(doc))
+			if p == nil {
+				t.Fatalf("parse failed\n%s", doc)
+			}
+			cases++
+			if err := p.Interpolate(&mapEnv{m: map[string]string{"X": "ex", "Y": "why"}}, false); err == nil {
+				failures++
+				if failures < 6 {
+					t.Errorf("a failing expansion at string position %d of %d was not reported\n%s", k, total, doc)
+				}
+			}
+		}
+	}
+	fragCalls, failAt = 0, -1
 	p, _ := pipeline.Parse(strings.NewReader("steps:\n  - command: \"${X?required}\"\n"))
 	cases++
 	if err := p.Interpolate(&mapEnv{m: map[string]string{}}, false); err == nil {
@@ -250,7 +291,7 @@ func TestC10(t *testing.T) {
 	r := rand.New(rand.NewSource(seed()))
 	cases, failures := 0, 0
 	names := []string{"A", "B", "C", "d", "RT"}
-	vals := []string{"1", "$A", "${B}-x", "$RT", "$$A", "$C$A", "${d}", "lit", "$a-lower", "${b}", "$rt", "${D}-upper", "$c$A"} // other letter cases: the caller's name equality decides
+	vals := []string{"1", "$A", "${B}-x", "$RT", "$$A", "$C$A", "${d}", "lit", "$a-lower", "${b}", "$rt", "${D}-upper", "$c$A", "${REQ?required}", "${A?set-in-half-the-runs}"} // other letter cases: the caller's name equality decides
 	rounds := 300
 	if os.Getenv("VERIF_TIER") == "thorough" {
 		rounds = 5000
@@ -263,6 +304,9 @@ func TestC10(t *testing.T) {
 			k := names[r.Intn(len(names))]
 			if r.Intn(6) == 0 {
 				k = "N_$A" // name built by expansion
+			}
+			if r.Intn(25) == 0 {
+				k = "N_${REQ?required}" // a name whose expansion fails
 			}
 			if used[k] {
 				continue
@@ -284,6 +328,24 @@ func TestC10(t *testing.T) {
 				refEnv := mk()
 				want, err := refEnvBlock(block, refEnv, prefer)
 				if err != nil {
+					// a failing expansion in a name or a value of the block is reported by Interpolate
+					var sb strings.Builder
+					sb.WriteString("env:\n")
+					for _, e := range block {
+						fmt.Fprintf(&sb, "  %s: %s\n", yamlStr(e.k), yamlStr(e.v))
+					}
+					sb.WriteString("steps:\n  - command: \"$A\"\n")
+					p, perr := pipeline.Parse(strings.NewReader(sb.String()))
+					if perr != nil {
+						t.Fatal(perr)
+					}
+					cases++
+					if p.Interpolate(mk(), prefer) == nil {
+						failures++
+						if failures < 5 {
+							t.Errorf("block %v prefer=%v fold=%v: the reference fails (%v) but Interpolate reported no error", block, prefer, fold, err)
+						}
+					}
 					continue
 				}
 				collide := false
